@@ -48,7 +48,11 @@ func genLabels(r *Rng, keys, vals []string, max int) []KV {
 	Shuffle(r, ks)
 	n := r.Intn(max + 1)
 	for i := 0; i < n && i < len(ks); i++ {
-		l = append(l, KV{ks[i], Pick(r, vals)})
+		v := Pick(r, vals)
+		if r.P(4) {
+			v = "" // a label with an empty value (`canary: ""`) is a label like any other
+		}
+		l = append(l, KV{ks[i], v})
 	}
 	return l
 }
